@@ -145,3 +145,59 @@ pub fn skip_open_taiko(map: &Beatmap, d: &Difficulty, target: GameMode, info: &m
 pub fn has_long_gap(map: &Beatmap) -> bool {
     map.hit_objects.windows(2).any(|w| w[1].start_time - w[0].start_time >= 5000.0)
 }
+
+use rosu_pp::{
+    catch::CatchPerformance, mania::ManiaPerformance, osu::OsuPerformance, taiko::TaikoPerformance, Performance,
+};
+
+/// Mode-specific performance builder on a map (conversion of osu! maps happens inside `calculate`).
+pub fn perf_for_mode(map: &Beatmap, mode: GameMode) -> Performance<'_> {
+    match mode {
+        GameMode::Osu => Performance::Osu(OsuPerformance::new(map)),
+        GameMode::Taiko => Performance::Taiko(TaikoPerformance::new(map)),
+        GameMode::Catch => Performance::Catch(CatchPerformance::new(map)),
+        GameMode::Mania => Performance::Mania(ManiaPerformance::new(map)),
+    }
+}
+
+/// The mods a `Difficulty` carries.
+pub fn mods_of(d: &Difficulty) -> rosu_pp::GameMods {
+    d.clone().inspect().mods
+}
+
+/// Standard prelude of map-based cases: map spec, target mode, settings (steered out of open classes).
+pub struct MapCase {
+    pub spec: MapSpec,
+    pub text: String,
+    pub map: Beatmap,
+    pub target: GameMode,
+    pub dspec: crate::gen::diff::DiffSpec,
+    pub d: Difficulty,
+}
+
+pub fn gen_map_case(
+    t: &mut Tape,
+    info: &mut CaseInfo,
+    profile: &crate::gen::map::MapProfile,
+    dprof: &crate::gen::diff::DiffProfile,
+    steer_gradual_taiko: bool,
+) -> MapCase {
+    let mut spec = crate::gen::map::gen_map(t, profile);
+    let target = pick_target(t, spec.mode);
+    if steer_gradual_taiko {
+        steer_taiko(&mut spec, target, info);
+    }
+    let mut dprof = dprof.clone();
+    if let Some(n) = dprof.with_passed.as_mut() {
+        *n = spec.objects.len() as u32;
+    }
+    let dspec = crate::gen::diff::gen_diff(t, &dprof, target);
+    let text = spec.render();
+    let map = spec.decode();
+    let d = dspec.build(target);
+    crate::gen::map::map_labels(&spec, info);
+    info.label(format!("target={target:?}"));
+    info.label_if(spec.mode == 0 && target != GameMode::Osu, "convert");
+    info.label_if(!dspec.is_default(), "non-default-difficulty");
+    MapCase { spec, text, map, target, dspec, d }
+}
